@@ -15,7 +15,7 @@ from vf.checks import c04, c05
 
 SHARDS = {'quick': 16, 'thorough': 64}
 TIMEOUT = {'quick': 1800, 'thorough': 7200}
-MUST_HIT = ['Case.parse-variant', 'Case.interpret-variant', 'Case.prebuild-variant', 'Case.select-many-upper',
+MUST_HIT = ['Case.invoke-variant', 'Case.parse-variant', 'Case.interpret-variant', 'Case.prebuild-variant', 'Case.select-many-upper',
             'Case.boolean-literal-variant', 'Case.word-operator-variant']
 MUST_REACH = ['bridgepoint/oal.py:OALParser.t_ID', 'bridgepoint/interpret.py:ActionWalker.accept_SelectFromNode',
               'bridgepoint/interpret.py:ActionWalker.accept_SelectRelatedNode',
@@ -25,7 +25,8 @@ MUST_REACH = ['bridgepoint/oal.py:OALParser.t_ID', 'bridgepoint/interpret.py:Act
               'bridgepoint/prebuild.py:ActionPrebuilder.accept_BooleanNode']
 ANCHORS = MUST_REACH
 MIN_NONTRIVIAL = {'quick': 300, 'thorough': 300}
-RULE = ('the C07 (parse), C04 (interpret) and C05 (prebuild) program streams, each program written in lower '
+RULE = ('the C07 (parse), C04 (interpret), C15 (invocations of callable elements, with effects allowed in the '
+        'operands of and / or) and C05 (prebuild) program streams, each program written in lower '
         'case and in five keyword-case variants (UPPER, Capitalised, three random per-letter mixes) with '
         'identical layout. Non-trivial = the program contains a select, a boolean literal or a word operator; '
         'distinct by hash of (stream, lower-case text).')
@@ -116,6 +117,74 @@ class ctx_proxy(object):
         pass
 
 
+def invoke_variants(ctx, rng):
+    '''
+    Callable elements (C15's generator) whose and / or operands may have effects: every element is
+    invoked from Python with the same arguments in every keyword-case variant of the model; returns
+    and the final instance population must agree with the lower-case run (no reference involved).
+    '''
+    from bridgepoint import ooaofooa
+    import xtuml
+    from vf import bpsynth as bp
+    from vf.checks import c15
+    from vf.ctx import cpu_budget, BudgetExceeded
+    import random
+    arg_seed = rng.random()
+    state = rng.getstate()
+    ref = None
+    lower_text = None
+    for case in ('lower',) + VARIANTS:
+        rng.setstate(state)
+        gen = c15.ModelGen(rng, impure_logic=True, case=case)
+        gen.make_elems()
+        arg_rng = random.Random(arg_seed)        # the same arguments in every variant
+        text = bp.build(gen.diagram()).rows.text()
+        loader = ooaofooa.ModelLoader(load_globals=True)
+        loader.input(text)
+        comp = loader.build_component()
+        comp.id_generator = xtuml.IntegerGenerator()
+        k0 = comp.new('K', N=1, S='p', F=True)
+        comp.new('K2', der=3)
+        obs = []
+        for e in gen.elems:
+            kwargs = {}
+            for pn, pt in e.params:
+                kwargs[pn] = {c15.INT: arg_rng.randint(0, 2), c15.STR: arg_rng.choice(('', 'q')),
+                              c15.BOOL: arg_rng.random() < 0.5}[pt]
+            try:
+                with cpu_budget(8):
+                    if e.kind == 'f':
+                        r_ = comp.find_symbol(e.name)(**kwargs)
+                    elif e.kind == 'b':
+                        r_ = getattr(comp.find_symbol('EX'), e.name)(**kwargs)
+                    elif e.kind == 'cop':
+                        r_ = getattr(comp.find_class('K'), e.name)(**kwargs)
+                    else:
+                        r_ = getattr(k0, e.name)(**kwargs)
+            except BudgetExceeded:
+                r_ = 'budget'
+            except Exception as ex:
+                r_ = 'raised %s' % type(ex).__name__
+            obs.append((e.name, repr(r_), len(comp.select_many('K')),
+                        tuple((i.N, i.S, i.F) for i in comp.select_many('K'))))
+            if r_ == 'budget':
+                # where the budget cuts the call tree depends on timing: this model decides nothing
+                ctx.count('invoke_models_discarded_cpu_budget')
+                return None, False
+        if case == 'lower':
+            ref = obs
+            lower_text = '\n'.join('-- %s\n%s' % (e.name, e.text) for e in gen.elems)
+        else:
+            ctx.hit('Case.invoke-variant')
+            if obs != ref:
+                d = [(a, b) for a, b in zip(ref, obs) if a != b][:1]
+                raise Mismatch('invoke/variant-differs', 'keyword case %s: invocation %r gives %r, lower case gives %r\n%s'
+                               % (case, d[0][1][0] if d else '?', d[0][1][1:3] if d else len(obs),
+                                  d[0][0][1:3] if d else len(ref),
+                                  '\n'.join('-- %s\n%s' % (e.name, e.text) for e in gen.elems)))
+    return lower_text, True
+
+
 def population(m):
     '''prebuilt instances as a sorted list of (class, attribute values) without recorded source text'''
     out = []
@@ -179,11 +248,18 @@ def run(ctx):
             ctx.case(('parse', lower), nt, sample=dict(stream='parse', program=lower[:300]))
         except Mismatch as e:
             ctx.violation(e.key, e.what, case=dict(what=e.what))
-    for _ in range(ctx.share(480 if quick else 20000)):
+    for _ in range(ctx.share(320 if quick else 20000)):
         try:
             lower, nt = interpret_variants(ctx, rng)
             if lower is not None:
                 ctx.case(('interpret', lower), nt, sample=dict(stream='interpret', program=lower[:300]))
+        except Mismatch as e:
+            ctx.violation(e.key, e.what, case=dict(what=e.what))
+    for _ in range(ctx.share(96 if quick else 8000)):
+        try:
+            lower, nt = invoke_variants(ctx, rng)
+            if lower is not None:
+                ctx.case(('invoke', lower), nt, sample=dict(stream='invoke', program=lower[:300]))
         except Mismatch as e:
             ctx.violation(e.key, e.what, case=dict(what=e.what))
     for i in range(ctx.share(240 if quick else 10000)):
